@@ -103,6 +103,15 @@ structure Sock where
   app : Nat
 deriving DecidableEq, Repr
 
+/-- Listen tokens and the sockets they name. Tokens 0‥7 are TCP addresses, each its own socket.
+    Tokens 8, 9, 10 are ONE unix socket path written without permission bits, with `|0600` and
+    with `|0660`: the bits say how the socket FILE is chmod'ed, they are not part of the socket's
+    identity — NetworkAddress.listen (listeners.go) splits them off (SplitUnixSocketPermissionsBits)
+    BEFORE it computes the key under which the socket is tracked in listenerPool / unixSockets,
+    so a config that names a socket another config has open, under whatever spelling, shares it
+    (reuseUnixSocket) instead of unlinking it. -/
+def sockId (t : Nat) : Nat := if t < 8 then t else 8
+
 /-- an entry of `ctx.moduleInstances` (only CleanerUppers matter) with the pool key it holds -/
 structure Live where
   inst : Inst
